@@ -105,9 +105,12 @@ class Recorder:
     SAMPLE_CAP = 6
     MAX_TIMEOUTS = 3
 
-    def __init__(self, leg, known):
+    def __init__(self, leg, known, task_key=None, skip=frozenset()):
         self.leg = leg
         self.known = known
+        self.task_key = task_key        # (leg index, shard): with the running number of the case it names a generated case across runs
+        self.skip = skip                # cases during which a worker process died or hung in an earlier round: not evaluated again
+        self.caseno = 0
         self.evals = 0
         self.executions = 0
         self.nontrivial = set()
@@ -128,7 +131,12 @@ class Recorder:
         key = case.get("alg", "-") if isinstance(case, dict) else "-"
         before = list(_RECENT)
         _RECENT.append((leg.name, case))
-        if self.timeouts[key] >= self.MAX_TIMEOUTS:
+        self.caseno += 1
+        crumb = (self.task_key + (self.caseno,)) if self.task_key else None
+        _breadcrumb(crumb)
+        if crumb is not None and crumb in self.skip:
+            res = Result(inconclusive="worker-process-died-or-hung-on-this-case")
+        elif self.timeouts[key] >= self.MAX_TIMEOUTS:
             res = Result(inconclusive="skipped-after-timeouts")
         else:
             signal.signal(signal.SIGPROF, _alarm)
@@ -207,11 +215,38 @@ def limit_memory():
         pass
 
 
+# ---- worker bookkeeping shared with the driver: which generated case every worker is evaluating, and since when
+
+_CRUMBS = None      # multiprocessing.Array('q', 5 * slots): pid, leg index, shard, case number (0 = between cases), start time
+_SLOT = None
+
+
+def _init_worker(crumbs, counter):
+    global _CRUMBS, _SLOT
+    _CRUMBS = crumbs
+    with counter.get_lock():
+        _SLOT = counter.value
+        counter.value += 1
+    if _SLOT * 5 + 4 < len(crumbs):
+        crumbs[_SLOT * 5] = os.getpid()
+
+
+def _breadcrumb(crumb):
+    if _CRUMBS is None or _SLOT is None or _SLOT * 5 + 4 >= len(_CRUMBS):
+        return
+    b = _SLOT * 5
+    if crumb is None:
+        _CRUMBS[b + 3] = 0
+    else:
+        _CRUMBS[b + 1], _CRUMBS[b + 2], _CRUMBS[b + 3], _CRUMBS[b + 4] = crumb[0], crumb[1], crumb[2], int(time.time())
+
+
 def run_shard(task):
-    leg_index, shard, nshards, n, tier = task
+    leg_index, shard, nshards, n, tier = task[:5]
+    skip = task[5] if len(task) > 5 else frozenset()
     limit_memory()
     leg = _LEGS[leg_index]
-    rec = Recorder(leg, _KNOWN)
+    rec = Recorder(leg, _KNOWN, (leg_index, shard), skip)
     t0 = time.time()
     try:
         if leg.stateful is not None:
@@ -242,7 +277,76 @@ def run_shard(task):
         out = rec.export()
         out["error"] = f"leg {leg.name} shard {shard}:\n" + traceback.format_exc()
     out["wall"] = time.time() - t0
+    _breadcrumb(None)
     return out
+
+
+def run_tasks(tasks, legs):
+    """Run the shards on a pool of forked workers that survives the death of a worker.  A worker can die (the solver library aborts, a
+    segmentation fault in C code under a changed tree) or hang without using CPU (a deadlock inside the solver, which the CPU-time budget
+    of a case cannot see).  multiprocessing.Pool then waits forever.  Here every worker leaves a breadcrumb naming the generated case it is
+    evaluating; a worker that stays on one case for longer than the wall-clock backstop is killed; when a worker is lost the unfinished
+    shards are run again with those cases skipped (counted as inconclusive).  Returns (results, lost_cases)."""
+    from concurrent.futures import ProcessPoolExecutor, wait, FIRST_COMPLETED
+    from concurrent.futures.process import BrokenProcessPool
+    ctx = multiprocessing.get_context("fork")
+    nworkers = min(env.jobs(), max(1, len(tasks)))
+    results, skip, pending = [], set(), list(tasks)
+    stall = float(os.environ.get("VERIF_STALL_S") or max([900.0] + [3.0 * l.case_timeout for l in legs]))
+    for attempt in range(6):
+        if not pending:
+            break
+        crumbs = ctx.Array("q", 5 * nworkers, lock=False)
+        counter = ctx.Value("i", 0)
+        ex = ProcessPoolExecutor(max_workers=nworkers, mp_context=ctx, initializer=_init_worker, initargs=(crumbs, counter))
+        futs = {ex.submit(run_shard, tuple(t[:5]) + (frozenset(skip),)): t for t in pending}
+        finished, broken, killed = set(), False, set()
+        try:
+            todo = set(futs)
+            while todo and not broken:
+                done, todo = wait(todo, timeout=20, return_when=FIRST_COMPLETED)
+                for f in done:
+                    try:
+                        results.append(f.result())
+                        finished.add(futs[f])
+                    except BrokenProcessPool:
+                        broken = True
+                now = time.time()
+                for w in range(nworkers):          # wall-clock backstop: a case that makes no progress and burns no CPU
+                    b = w * 5
+                    if crumbs[b] and crumbs[b + 3] and now - crumbs[b + 4] > stall and crumbs[b] not in killed:
+                        killed.add(crumbs[b])
+                        skip.add((crumbs[b + 1], crumbs[b + 2], crumbs[b + 3]))
+                        try:
+                            os.kill(crumbs[b], signal.SIGKILL)
+                        except OSError:
+                            pass
+        finally:
+            procs = dict(getattr(ex, "_processes", None) or {})
+            ex.shutdown(wait=True, cancel_futures=True)
+        pending = [t for t in pending if t not in finished]
+        if not pending:
+            break
+        # which cases were being evaluated by the workers that died on their own (not the ones the executor terminated afterwards)
+        suspects = set()
+        for w in range(nworkers):
+            b = w * 5
+            if not crumbs[b] or not crumbs[b + 3]:
+                continue
+            proc = procs.get(crumbs[b])
+            code = getattr(proc, "exitcode", None)
+            if crumbs[b] in killed or code not in (None, 0, -signal.SIGTERM):
+                suspects.add((crumbs[b + 1], crumbs[b + 2], crumbs[b + 3]))
+        if not suspects:                           # could not tell: skip every case that was being evaluated when the pool broke
+            suspects = {(crumbs[w * 5 + 1], crumbs[w * 5 + 2], crumbs[w * 5 + 3]) for w in range(nworkers) if crumbs[w * 5] and crumbs[w * 5 + 3]}
+        if suspects <= skip and not killed:
+            break                                  # no progress possible
+        skip |= suspects
+    for t in pending:
+        results.append({"leg": legs[t[0]].name, "evals": 0, "executions": 0, "nontrivial": set(), "labels": {}, "samples": [], "failures": {},
+                        "known_hits": {}, "known_examples": {}, "inconclusive": {}, "wall": 0.0,
+                        "error": f"leg {legs[t[0]].name} shard {t[1]}: its worker process died or hung repeatedly"})
+    return results, sorted(skip)
 
 
 # ------------------------------------------------------------------ minimisation
@@ -349,14 +453,11 @@ def run_check(prop_id, legs, level="exploration", tier=None, assumptions=None, e
     legs = [l for l in legs if l is not None]
     _LEGS, _KNOWN, _PROP = legs, known, prop_id
     tasks = plan_tasks(legs, tier)
-    ctx = multiprocessing.get_context("fork")
-    results = []
+    lost_cases = []
     if env.jobs() == 1:
         results = [run_shard(t) for t in tasks]
     else:
-        with ctx.Pool(min(env.jobs(), max(1, len(tasks))), maxtasksperchild=None) as pool:
-            for r in pool.imap_unordered(run_shard, tasks, chunksize=1):
-                results.append(r)
+        results, lost_cases = run_tasks(tasks, legs)
 
     errors = [r["error"] for r in results if r["error"]]
     per_leg = collections.OrderedDict((l.name, {"evaluations": 0, "executions": 0, "nontrivial": set(), "wall_cpu_s": 0.0})
@@ -448,6 +549,7 @@ def run_check(prop_id, legs, level="exploration", tier=None, assumptions=None, e
                  for name, pl in per_leg.items()},
         "labels": dict(sorted(labels.items())),
         "inconclusive": dict(inconclusive),
+        "cases_lost_to_dead_or_hung_workers": len(lost_cases),
         "known_findings_confirmed": dict(known_hits),
         "fixed_defects_replayed": len(fixed),
         "violating_buckets": [b for b, _, _, _, _ in violations],
@@ -472,6 +574,10 @@ def run_check(prop_id, legs, level="exploration", tier=None, assumptions=None, e
         if note:
             print(f"  note={note}", flush=True)
         print(f"  detail={json.dumps(detail, default=str)[:600]}", flush=True)
+    if lost_cases:
+        print(f"NOTE property={prop_id}: a worker process died or hung (no CPU use) while evaluating {len(lost_cases)} generated case(s) "
+              f"{[legs[a].name + '/shard' + str(b) + '/case' + str(c) for a, b, c in lost_cases][:4]}; those cases were skipped on the "
+              f"re-run of their shards and are inconclusive, not verdicts", flush=True)
     if inconclusive.get("timeout") or inconclusive.get("skipped-after-timeouts"):
         print(f"NOTE property={prop_id}: {inconclusive.get('timeout', 0)} case(s) exceeded their CPU budget and "
               f"{inconclusive.get('skipped-after-timeouts', 0)} were skipped after repeated timeouts of the same algorithm; "
